@@ -75,6 +75,7 @@ type c05Run struct {
 	t0        time.Time
 	total     int64
 	nestedIDs int64
+	posters   sync.WaitGroup
 }
 
 func (x *c05Run) now() int64 { return int64(time.Since(x.t0)) }
@@ -170,12 +171,33 @@ func runC05(c *vf.Case) {
 			c.Failf("nested-post-handlers-not-all-executed", "%d handlers posted (incl. nested), %d executed", n*(depth+1), got)
 		}
 		c.Count("nested_post_probes", 1)
+		// Post from inside an I/O completion handler and from inside a timer callback
+		if o, err := w.NewObj(sim.KConnDialed, false); err == nil && !c.Failed() {
+			before := atomic.LoadInt64(&x.total)
+			w.NextOnDone = func(op *sim.Op) { x.post(ioc, 3, 0, 1, &nested) }
+			w.StartStream(o, 0, false, 8, sim.BNone, nil, true)
+			w.PeerWrite(o, 4)
+			if tm, err := w.NewTimer(); err == nil {
+				_ = tm.T.ScheduleOnce(time.Millisecond, func() { x.post(ioc, 4, 0, 1, &nested) })
+			}
+			c.Bounded("post-from-io-or-timer-handler-deadlocks-the-loop", 30*time.Second, func() {
+				for it := 0; it < 20000 && atomic.LoadInt64(&x.total) < before+4; it++ {
+					_ = ioc.RunOneFor(time.Millisecond)
+				}
+			})
+			if got := atomic.LoadInt64(&x.total) - before; got != 4 {
+				c.Failf("post-from-io-or-timer-handler-not-executed", "4 handlers were posted from a read completion and a timer callback (incl. nested), %d executed", got)
+			}
+			c.Count("posts_from_io_and_timer_handlers", 1)
+		}
 	case 1: // wake probe: loop blocked in RunOne(), Post from another thread
 		c.Logf("wake probe: loop blocked in RunOne, one Post from another goroutine")
 		rounds := r.Range(1, 5)
 		for i := 0; i < rounds && !c.Failed(); i++ {
+			x.posters.Add(1)
 			go func(i int) {
-				time.Sleep(time.Duration(500+r.Intn(0)) * time.Microsecond)
+				defer x.posters.Done()
+				time.Sleep(500 * time.Microsecond)
 				x.post(ioc, 2, i, 0, &nested)
 			}(i)
 			before := atomic.LoadInt64(&x.total)
@@ -193,7 +215,9 @@ func runC05(c *vf.Case) {
 		start := make([]chan int, K)
 		for k := range start {
 			start[k] = make(chan int, 1)
+			x.posters.Add(1)
 			go func(k int) {
+				defer x.posters.Done()
 				for round := range start[k] {
 					x.post(ioc, 20+k, round, 0, &nested)
 				}
@@ -302,7 +326,9 @@ func runC05(c *vf.Case) {
 	if c.Failed() {
 		return
 	}
-	// offline checks over the event log
+	// offline checks over the event log - only after every posting goroutine has returned from Post and
+	// recorded its event (a handler can run before the Post call that queued it has returned)
+	x.posters.Wait()
 	for i := 0; i < 10; i++ {
 		_, _ = ioc.PollOne()
 	}
@@ -331,6 +357,11 @@ func runC05(c *vf.Case) {
 		res, _ := porcupine.CheckOperationsVerbose(c05Model, ops, 20*time.Second)
 		switch res {
 		case porcupine.Illegal:
+			if len(ops) <= 40 {
+				for _, op := range ops {
+					c.Logf("history: client=%d input=%+v call=%d return=%d", op.ClientId, op.Input, op.Call, op.Return)
+				}
+			}
 			c.Failf("per-poster-order-not-fifo", "porcupine: the history of %d Post/handler events is not linearizable as per-poster FIFO queues (handlers of one poster ran out of posting order)", len(ops))
 		case porcupine.Unknown:
 			c.Count("porcupine_timeouts", 1)
